@@ -5,7 +5,7 @@ L1a  the script path's pass (scripting::expand_args) vs the extracted model, and
      the law must hold, inside them three-way (as the model predicts / repaired / anything else).
 L1b  same on the C01 / C03 line generators plus redirection, $VAR, brace, substitution words; the pass with
      script arguments present must not touch a positional-free line; lines WITH positional parameters
-     are compared text-for-text with the model (expand_args_for_single_token).
+     are compared with the model on the same observable (expand_args_for_single_token).
 L1c  is_args_in_token, expand_args_for_single_token, wrap_sep_string, tokens_to_line on short inputs.
 L2   real binary: each line through -c, script file, function body, sourced file (and a sample through the
      interactive prompt on a pty); argv seen by the helper, stdout, files, status compared pairwise with -c.
@@ -109,7 +109,8 @@ def check_law(res, layer, lines, mo, io, known, st, V):
         law_i = si == di
         if posi == "1" or comp == "0":
             # outside the property's domain: positional parameter present, or unterminated line; model agreement only
-            if si != sm:
+            # (an unterminated positional-free line: the model's expand_args, or left alone = expand_args_fixed)
+            if si != sm and not (posi == "0" and si == di):
                 V("correspondence", layer, s, a, b, False, "expand_args differs from the model (line outside the property's domain)")
             continue
         kc = klass(k)
@@ -142,23 +143,30 @@ def run(ctx, res):
     rng = ctx.rng
     known = {k["class"]: k for k in C.known_findings("C16")}
     model, impl = ctx.model["C16"], ctx.bins["c16"]
-    nviol = [0]
+    nviol = {True: 0, False: 0}
     st = {}
 
     def V(kind, layer, inp, exp, obs, failing, note):
-        nviol[0] += 1
-        if nviol[0] <= 4:
+        # at most 3 replays with a concrete failing input and 2 without
+        nviol[failing] += 1
+        if nviol[failing] <= (3 if failing else 2):
             res.violate(kind=kind, layer=layer, input=inp, expected=exp, observed=obs, failing_input=failing, note=note)
 
     maxlen = 5 if ctx.thorough else 4
     res.rule = ("L1a: law + correspondence of scripting::expand_args on every string up to length %d over %r; L1b: the C01 / C03 "
                 "generators and word-soup lines (redirections, variables, braces, substitutions, operators, 1-3 blanks), with and "
-                "without script arguments, and lines with positional parameters text-for-text; L1c: is_args_in_token, "
+                "without script arguments, and lines with positional parameters; L1c: is_args_in_token, "
                 "expand_args_for_single_token, wrap_sep_string, tokens_to_line on short inputs; L2: lines through -c / script / "
                 "function / source (+ pty sample), argv+stdout+files+status pairwise against -c and against the model's "
                 "prediction -c(rerender l). non-trivial = distinct line whose rendering differs from it" % (maxlen, TOKALPHA))
     work = tempfile.mkdtemp(prefix="c16_")
     try:
+        # ------------------------------------------------------------ the recorded witnesses first (they name the findings)
+        wit = [k["input"].split(": ", 1)[-1] for k in known.values()]
+        if wit:
+            p = C.write_cases("c16_wit.txt", [C.case("law", s) for s in wit])
+            check_law(res, "L1-witness", wit, C.run_model(model, p), C.run_impl(impl, p, len(wit)), known, st, V)
+            res.count("L1_recorded_witnesses", len(wit))
         # ------------------------------------------------------------ L1a exhaustive short lines
         toks = []
         for n in range(0, maxlen + 1):
@@ -179,16 +187,9 @@ def run(ctx, res):
         n_a = sum(1 for x, y in zip(ma, ia) if x == y)
         n_f = sum(1 for x, y in zip(mf, ia) if x == y)
         variant = "expand_args" if n_a == len(toks) else ("expand_args_fixed" if n_f == len(toks) else None)
-        res.extra["text_level_variant"] = variant or "neither (%d / %d of %d)" % (n_a, n_f, len(toks))
+        # informational only: the binding comparison is on the observable (segments and tokens), above
+        res.extra["text_level_variant"] = variant or "neither (%d / %d of %d agree)" % (n_a, n_f, len(toks))
         res.count("L1a_text", len(toks))
-        if variant is None:
-            ref = ma if n_a >= n_f else mf
-            for s, x, y in zip(toks, ref, ia):
-                if x != y:
-                    # does the law fail on this input? then it is a failing input
-                    V("correspondence", "L1a-text", s, x, y, False,
-                      "text returned by expand_args is neither the model's nor the repaired model's")
-                    break
         # ------------------------------------------------------------ L1b domain lines
         lines = gen_domain_lines(ctx)
         p = C.write_cases("c16_law2.txt", [C.case("law", s) for s in lines])
@@ -217,12 +218,12 @@ def run(ctx, res):
             n = rng.randint(1, 4)
             pl.append("echo " + " ".join(rng.choice(pw + ["a", "'q'"]) for _ in range(n)))
         argsets = [[], ["s"], ["s", "A"], ["s", "A", "B b"], ["s", "$2", "'", "x y"]]
-        pc = [C.case("xa", l, *rng.choice(argsets)) for l in pl]
+        pc = [C.case("law", l, *rng.choice(argsets)) for l in pl]
         p3 = C.write_cases("c16_xa.txt", pc)
         mo3, io3 = C.run_model(model, p3), C.run_impl(impl, p3, len(pc))
-        res.count("L1b_positional_text", len(pc))
+        res.count("L1b_positional", len(pc))
         for s, a, b in zip(pc, mo3, io3):
-            if a != b:
+            if strip_k(a) != b:
                 V("correspondence", "L1b", s, a, b, False, "expand_args with positional parameters differs from the model")
         # ------------------------------------------------------------ L1c small functions
         sc = []
